@@ -160,12 +160,12 @@ Expected(B, s) ==
              from == IF isUpd THEN s.from ELSE <<>>
              myJoin == B = "mysql" /\ Len(from) > 0
          IN [kind |-> s.kind, with |-> ExpWith(B, s.with),
-             table |-> IF IsNone(s.table) THEN NoneG ELSE [k |-> "table", names |-> s.table.v, a |-> "", hints |-> <<>>, sample |-> NoneG],
+             table |-> IF IsNone(s.table) THEN NoneG ELSE [k |-> "table", names |-> s.table.v, a |-> IF isUpd THEN s.talias ELSE "", hints |-> <<>>, sample |-> NoneG],
              join |-> IF myJoin THEN (IF Len(from) = 1 THEN [jt |-> "JOIN", t |-> ExpTable(B, from[1]), on |-> ExpHolder(B, s.where)]
                                       ELSE [jt |-> "JOIN", multi |-> [i \in DOMAIN from |-> ExpTable(B, from[i])], on |-> ExpHolder(B, s.where)])
                       ELSE NoneG,
              sets |-> IF isUpd THEN [i \in DOMAIN s.values |->
-                         [c |-> s.values[i].c, q |-> IF myJoin /\ ~IsNone(s.table) /\ Len(s.table.v) = 1 THEN s.table.v[1] ELSE "", e |-> Canon(B, s.values[i].e)]]
+                         [c |-> s.values[i].c, q |-> IF myJoin /\ ~IsNone(s.table) /\ Len(s.table.v) = 1 /\ s.talias = "" THEN s.table.v[1] ELSE "", e |-> Canon(B, s.values[i].e)]]
                       ELSE <<>>,
              from |-> IF B # "mysql" THEN [i \in DOMAIN from |-> ExpTable(B, from[i])] ELSE <<>>,
              where |-> IF myJoin THEN NoneG ELSE ExpHolder(B, s.where),
@@ -178,6 +178,7 @@ RECURSIVE Unsupported(_, _)
 Unsupported(B, s) ==
   CASE s.kind = "select" ->
          (~IsNone(s.distinct) /\ s.distinct.k = "on" /\ B # "pg")
+         \/ (B # "pg" /\ \E i \in DOMAIN s.from : s.from[i].k \in {"table", "alias"} /\ Len(s.from[i].t) = 3)     \* three-part names are PostgreSQL's
          \/ (B = "mysql" /\ \E i \in DOMAIN s.joins : s.joins[i].jt = "FullOuter")
          \/ (B = "sqlite" /\ \E i \in DOMAIN s.joins : s.joins[i].lateral)                      \* SQLite has no LATERAL
          \* MySQL index hints qualify a base table; the builder writes them after the last FROM item whatever it is
